@@ -1,10 +1,11 @@
-(* C02deep — the passes compose: well-formedness (and the absence of a Break outside of a loop) is preserved
-   by every modelled pass, `refines_add` is transitive, so the per-function pipeline of lib.rs (restricted to
-   the modelled passes) preserves behaviour given these two facts of its INPUT only. *)
+(* C02deep — the passes compose: well-formedness (and the absence of a Break outside of a loop, and the freshness
+   of the supply of names) is preserved by every modelled pass, `refines_add` is transitive, so the per-function
+   pipeline of lib.rs (restricted to the modelled passes) preserves behaviour given these facts of its INPUT only. *)
 From Coq Require Import ZArith NArith List Bool.
 Import ListNotations.
-From SV Require Import Common.Int32 C02deep.Syntax C02deep.Sem C02deep.Passes C02deep.ProofsSem C02deep.ProofsDce
-  C02deep.ProofsCcp C02deep.ProofsCcpFull C02deep.ProofsLvn C02deep.ProofsWf C02deep.ProofsWfLvn.
+From SV Require Import Common.Int32 C02deep.Syntax C02deep.Sem C02deep.Passes C02deep.ProofsSem C02deep.ProofsDceSets C02deep.ProofsDce
+  C02deep.ProofsCcpRel C02deep.ProofsCcp C02deep.ProofsCcpFull C02deep.ProofsLvn C02deep.ProofsWf C02deep.ProofsWfLvn
+  C02deep.ProofsCseStatic C02deep.ProofsCse.
 Open Scope Z_scope.
 
 (* one round of the per-function pipeline with value numbering on *)
@@ -23,58 +24,83 @@ Proof.
 Qed.
 
 (* the invariant of a partial pipeline run *)
-Definition okr (w : world) (f : func) (r : option (func * fl)) : Prop :=
-  match r with
-  | Some (f', fl) => fst fl = false -> refines_add w f' f /\ wf_func f' = true /\ no_break_l (f_body f') = true
-  | None => True
-  end.
+Definition okf (w : world) (f f' : func) (s : list name) : Prop :=
+  refines_add w f' f /\ wf_func f' = true /\ no_break_l (f_body f') = true /\ fresh_for s f'.
+Definition okr (w : world) (f : func) (r : option pst) : Prop :=
+  match r with Some (f', fl, s) => fst fl = false -> okf w f f' s | None => True end.
 Lemma refines_add_refl w f : refines_add w f f.
 Proof. intros args fuel v tr H. exact H. Qed.
+Lemma fresh_for_sub s f f' : fresh_for s f -> f_params f' = f_params f -> incl' (binders_l (f_body f')) (binders_l (f_body f)) ->
+  fresh_for s f'.
+Proof.
+  intros [Hn Hd] Ep Hb. split; [exact Hn|]. intros x Hx Hi. apply (Hd x Hx). rewrite Ep in Hi. apply in_app_or in Hi.
+  apply in_or_app. destruct Hi; auto.
+Qed.
 
 Lemma okr_ccp w f r : okr w f r -> okr w f (then_ccp r).
 Proof.
-  destruct r as [[f1 fl1]|]; cbn; [|auto]. intros H. destruct (ccp f1) as [[f2 fl2]|] eqn:E; cbn; [|exact I].
-  intros Hf. apply orb_false_elim in Hf. destruct Hf as [Hf1 Hf2]. destruct (H Hf1) as (R & W & N).
-  split; [|split].
+  destruct r as [[[f1 fl1] s]|]; cbn; [|auto]. intros H. destruct (ccp f1) as [[f2 fl2]|] eqn:E; cbn; [|exact I].
+  intros Hf. apply orb_false_elim in Hf. destruct Hf as [Hf1 Hf2]. destruct (H Hf1) as (R & W & N & F).
+  destruct (ccp_binders f1 f2 fl2 W E Hf2) as [Ep Hb].
+  split; [|split; [|split]].
   - apply (refines_add_trans w f f1); [exact R|]. exact (ccp_preserves_add w f1 f2 fl2 W E Hf2).
   - exact (ccp_wf f1 f2 fl2 W N E Hf2).
   - exact (ccp_no_break f1 f2 fl2 N E).
+  - exact (fresh_for_sub s f1 f2 F Ep Hb).
 Qed.
 Lemma okr_pure w f r (p : func -> func) :
-  (forall g, wf_func g = true -> refines_add w (p g) g /\ wf_func (p g) = true) ->
+  (forall g, wf_func g = true -> refines_add w (p g) g /\ wf_func (p g) = true /\
+             f_params (p g) = f_params g /\ incl' (binders_l (f_body (p g))) (binders_l (f_body g))) ->
   (forall g, no_break_l (f_body g) = true -> no_break_l (f_body (p g)) = true) ->
   okr w f r -> okr w f (then_pure p r).
 Proof.
-  intros Hp Hn. destruct r as [[f1 fl1]|]; cbn; [|auto]. intros H Hf. destruct (H Hf) as (R & W & N).
-  destruct (Hp f1 W) as [R' W']. split; [|split; auto]. apply (refines_add_trans w f f1); assumption.
+  intros Hp Hn. destruct r as [[[f1 fl1] s]|]; cbn; [|auto]. intros H Hf. destruct (H Hf) as (R & W & N & F).
+  destruct (Hp f1 W) as (R' & W' & Ep & Hb). split; [|split; [|split]]; auto.
+  - apply (refines_add_trans w f f1); assumption.
+  - exact (fresh_for_sub s f1 (p f1) F Ep Hb).
 Qed.
-Lemma dce_step w g : wf_func g = true -> refines_add w (dce g) g /\ wf_func (dce g) = true.
+Lemma okr_cse w f b r : okr w f r -> okr w f (then_cse b r).
 Proof.
-  intros W. split; [|apply dce_wf; exact W]. intros args fuel v tr Hs. exact (dce_preserves_mode Add w g args fuel v tr W Hs).
+  destruct b; [|auto]. destruct r as [[[f1 fl1] s]|]; cbn; [|auto]. intros H.
+  destruct (cse_gen false s f1) as [[f2 s2]|] eqn:E; [|exact I]. intros Hf. destruct (H Hf) as (R & W & N & F).
+  destruct (cse_wf false s f1 f2 s2 W F E) as (W' & F' & N').
+  split; [|split; [|split]]; auto.
+  apply (refines_add_trans w f f1); [exact R|]. exact (cse_preserves_add w false s f1 f2 s2 W N F E).
 Qed.
-Lemma lvn_step w g : wf_func g = true -> refines_add w (lvn g) g /\ wf_func (lvn g) = true.
-Proof. intros W. split; [exact (lvn_preserves_add w g W) | exact (lvn_wf g W)]. Qed.
-Lemma okr_round w f b r : okr w f r -> okr w f (one_round b r).
+Lemma dce_step w g : wf_func g = true -> refines_add w (dce g) g /\ wf_func (dce g) = true /\
+  f_params (dce g) = f_params g /\ incl' (binders_l (f_body (dce g))) (binders_l (f_body g)).
+Proof.
+  intros W. split; [|split; [apply dce_wf; exact W|split; [reflexivity|]]].
+  - intros args fuel v tr Hs. exact (dce_preserves_mode Add w g args fuel v tr W Hs).
+  - intros x Hx. unfold dce in Hx. cbn [f_body] in Hx. eapply dce_stmts_binders; eauto.
+Qed.
+Lemma lvn_step w g : wf_func g = true -> refines_add w (lvn g) g /\ wf_func (lvn g) = true /\
+  f_params (lvn g) = f_params g /\ incl' (binders_l (f_body (lvn g))) (binders_l (f_body g)).
+Proof. intros W. split; [exact (lvn_preserves_add w g W)|]. split; [exact (lvn_wf g W) | exact (lvn_binders g W)]. Qed.
+Lemma okr_round w f b c r : okr w f r -> okr w f (one_round b c r).
 Proof.
   intros H. unfold one_round. apply okr_pure; [apply dce_step | apply dce_no_break|].
-  destruct b; [apply okr_pure; [apply lvn_step | apply lvn_no_break | apply okr_ccp; exact H]|].
-  apply okr_pure; [intros g W; split; [apply refines_add_refl | exact W] | auto | apply okr_ccp; exact H].
+  destruct b; [apply okr_pure; [apply lvn_step | apply lvn_no_break | apply okr_cse, okr_ccp; exact H]|].
+  apply okr_pure; [intros g W; split; [apply refines_add_refl|]; split; [exact W|]; split; [reflexivity | intros x Hx; exact Hx]
+                  | auto | apply okr_cse, okr_ccp; exact H].
 Qed.
 
 (* optimize_function_for_rounds, restricted to the modelled passes, on its input only *)
-Theorem pipeline_preserves w b f f' fl :
-  wf_func f = true -> no_break_l (f_body f) = true -> pipeline b f = Some (f', fl) -> fst fl = false ->
+Theorem pipeline_preserves w b c sup f f' fl sup' :
+  wf_func f = true -> no_break_l (f_body f) = true -> fresh_for sup f ->
+  pipeline b c sup f = Some (f', fl, sup') -> fst fl = false ->
   refines_add w f' f /\ wf_func f' = true /\ no_break_l (f_body f') = true.
 Proof.
-  intros W N E Hf.
-  assert (H0 : okr w f (Some (f, fl0))) by (intros _; split; [apply refines_add_refl | auto]).
-  pose proof (okr_ccp w f _ (okr_pure w f _ dce (dce_step w) dce_no_break (okr_ccp w f _ (okr_round w f b _ (okr_round w f b _ H0))))) as H.
-  change (okr w f (pipeline b f)) in H. rewrite E in H. exact (H Hf).
+  intros W N F E Hf.
+  assert (H0 : okr w f (Some (f, fl0, sup))) by (intros _; split; [apply refines_add_refl | auto]).
+  pose proof (okr_ccp w f _ (okr_pure w f _ dce (dce_step w) dce_no_break (okr_ccp w f _ (okr_round w f b c _ (okr_round w f b c _ H0))))) as H.
+  change (okr w f (pipeline b c sup f)) in H. rewrite E in H. destruct (H Hf) as (R & W' & N' & _). auto.
 Qed.
-Corollary pipeline_preserves_named w b f f' fl :
-  wf_func f = true -> no_break_l (f_body f) = true -> pipeline_no_dead_final_operands b f -> pipeline b f = Some (f', fl) ->
+Corollary pipeline_preserves_named w b c sup f f' fl sup' :
+  wf_func f = true -> no_break_l (f_body f) = true -> fresh_for sup f -> pipeline_no_dead_final_operands b c sup f ->
+  pipeline b c sup f = Some (f', fl, sup') ->
   refines w f' f /\ wf_func f' = true /\ no_break_l (f_body f') = true.
 Proof.
-  intros W N D E. unfold pipeline_no_dead_final_operands in D. rewrite E in D.
-  destruct (pipeline_preserves w b f f' fl W N E D) as (R & W' & N'). split; [apply refines_add_refines; exact R | auto].
+  intros W N F D E. unfold pipeline_no_dead_final_operands in D. rewrite E in D.
+  destruct (pipeline_preserves w b c sup f f' fl sup' W N F E D) as (R & W' & N'). split; [apply refines_add_refines; exact R | auto].
 Qed.
